@@ -234,6 +234,7 @@ def run(ctx):
 
     _c04.r04_6_placeholders(ctx)  # every placeholder is rewritten / refused (shared with C04)
     _c03.r03_1_skip_set(ctx)  # local/global slot classification; reserved, shared and dynamically indexed slots are never optimised away (shared)
+    _c03.r03_1b_slot_classes(ctx)
     _c03.r03_2_dependency_scan(ctx)  # a variable that is still loaded somewhere keeps its stores (shared with C03)
     from rules import c11 as _c11
 
